@@ -379,6 +379,27 @@ pub fn run(tier: Tier) -> i32 {
                         let o2: Vec<usize> = o.iter().map(|x| x + head.len()).collect();
                         items.push((format!("order:{}:{}:{}:{}", na, nb, nc, if head.is_empty() { "ascii" } else { "multibyte-header" }), t2, o2));
                     }
+                    // the same three containers with a whole container per line, and with two containers on ONE line (several
+                    // findings can then start on the same line, with a container that has none on the next one)
+                    for (ln, breaks) in [("one-per-line", [true, true, true]), ("first-two-on-one-line", [true, false, true]), ("last-two-on-one-line", [true, true, false]), ("all-on-one-line", [true, false, false])] {
+                        let groups: Vec<Vec<String>> = vec!["pragma solidity 0.8.19 ;", a, b, c].iter().map(|g| g.split(' ').filter(|x| !x.is_empty()).map(|x| x.to_string()).collect()).collect();
+                        let mut text = String::new();
+                        let mut offs = Vec::new();
+                        for (gi, g) in groups.iter().enumerate() {
+                            if gi > 0 {
+                                text.push(if breaks[gi - 1] { '\n' } else { ' ' });
+                            }
+                            for (ti, tk) in g.iter().enumerate() {
+                                if ti > 0 {
+                                    text.push(' ');
+                                }
+                                offs.push(text.len());
+                                text.push_str(tk);
+                            }
+                        }
+                        text.push('\n');
+                        items.push((format!("order:{}:{}:{}:{}", na, nb, nc, ln), text, offs));
+                    }
                 }
             }
         }
